@@ -8,9 +8,13 @@
   layers below and the step module do), arbitrary frames, states, item lists of any length,
   any iteration bound, any fuel — proved by induction on the list / the number of iterations.
   Helper definitions (`itemOut`, `foreachFold`, `ForeachAllOk`, `iterOut`, `whileOut`, `whilePre`,
-  `stopEval`, `whileAfter`, `stepCore`, …) are in Props/Lemmas/C05_Loops.lean, C04_Cond.lean.
+  `stopEval`, `whileAfter`, `stepCore`, …) are in Props/Lemmas/C05_Loops.lean, C04_Cond.lean;
+  `WhileReaches` (iteration `k+n` is actually executed) in C05_Reach.lean; the logging body
+  `logIW` / `iwEvent` of the nested closed form in C05_Nested.lean.
 -/
 import Props.Lemmas.C05_Loops
+import Props.Lemmas.C05_Reach
+import Props.Lemmas.C05_Nested
 
 namespace Pypyr.C05
 open Pypyr Pypyr.Flow Pypyr.C04
@@ -144,13 +148,30 @@ theorem while_stop_postexec (cfg : WhileCfg) (fr : Frame) (inner : Frame → Bod
           | .ok false =>
             if whileBounded max then
               if k < max.getD 0 then
-                whileIter cfg fr inner max sleep eom fuel (k + 1) { s1 with sleeps := s1.sleeps ++ [numToVal sleep] }
+                (if sleep.n < 0 then raiseNew s1 "ValueError" "sleep length must be non-negative"
+                 else whileIter cfg fr inner max sleep eom fuel (k + 1)
+                        { s1 with sleeps := s1.sleeps ++ [numToVal sleep] })
               else if eom then raiseNew s1 "pypyr.errors.LoopMaxExhaustedError" "~while loop reached max"
               else (s1, .ok)
             else
-              whileIter cfg fr inner max sleep eom fuel (k + 1) { s1 with sleeps := s1.sleeps ++ [numToVal sleep] })
+              (if sleep.n < 0 then raiseNew s1 "ValueError" "sleep length must be non-negative"
+               else whileIter cfg fr inner max sleep eom fuel (k + 1)
+                      { s1 with sleeps := s1.sleeps ++ [numToVal sleep] }))
        | other => other) :=
   whileIter_succ cfg fr inner max sleep eom fuel k s
+
+/-- **A negative `sleep`** (`time.sleep` raises ValueError for it): the loop ends with that ValueError
+    where its first sleep would take place - after the first iteration that completed normally, did
+    not stop the loop and was not the last one; nothing is slept, no further iteration runs. (The
+    error leaves `while_loop`, outside run/skip/swallow: it is neither recorded nor swallowed.) -/
+theorem while_negative_sleep (cfg : WhileCfg) (fr : Frame) (inner : Frame → Body) (max : Option Nat)
+    (sleep : Num) (eom : Bool) (fuel k : Nat) (s s1 : St) (hneg : sleep.n < 0)
+    (hi : iterOut fr inner k s = (s1, .ok)) (hstop : stopEval cfg s1 = .ok false)
+    (hb : whileBounded max = true → k < max.getD 0) :
+    whileIter cfg fr inner max sleep eom (fuel + 1) k s =
+      raiseNew s1 "ValueError" "sleep length must be non-negative" := by
+  rw [whileIter_succ_of_ok _ _ _ _ _ _ _ _ _ (by rw [hi]), hi]
+  exact whileAfter_negative_sleep cfg fr inner max sleep eom fuel k s1 hstop hb hneg
 
 /-- … so a body that makes `stop` true ends the loop after that very iteration, whatever `stop`
     was on entry; and a `stop` that is true on entry does not prevent the first iteration. -/
@@ -179,19 +200,19 @@ theorem while_counter_sequence (fr : Frame) (inner : Frame → Body) (sleep : Nu
     iterations and completes normally in the state the last one left. Holds for `max = none`
     (unbounded: runs until the first true `stop`) and for any bound. -/
 theorem while_ends_at_first_true_stop (cfg : WhileCfg) (fr : Frame) (inner : Frame → Body) (max : Option Nat)
-    (sleep : Num) (eom : Bool) (n k : Nat) (s : St) (fuel : Nat) (hfuel : n < fuel)
+    (sleep : Num) (eom : Bool) (hnn : 0 ≤ sleep.n) (n k : Nat) (s : St) (fuel : Nat) (hfuel : n < fuel)
     (hok : ∀ i, i ≤ n → (whileOut fr inner sleep i k s).2 = .ok)
     (hfalse : ∀ i, i < n → stopEval cfg (whileOut fr inner sleep i k s).1 = .ok false)
     (htrue : stopEval cfg (whileOut fr inner sleep n k s).1 = .ok true)
     (hbound : whileBounded max = true → k + n ≤ max.getD 0) :
     whileIter cfg fr inner max sleep eom fuel k s = ((whileOut fr inner sleep n k s).1, .ok) :=
-  whileIter_first_stop cfg fr inner max sleep eom n k s fuel hfuel hok hfalse htrue hbound
+  whileIter_first_stop cfg fr inner max sleep eom hnn n k s fuel hfuel hok hfalse htrue hbound
 
 /-- **… or once `max` iterations have run**: `stop` false after each of the iterations `1 .. m`
     ⇒ exactly `m` iterations, then the loop-exhausted error iff `errorOnMax`, else normal
     completion. -/
 theorem while_ends_at_max (cfg : WhileCfg) (fr : Frame) (inner : Frame → Body) (m : Nat) (hm : 1 ≤ m)
-    (sleep : Num) (eom : Bool) (s : St) (fuel : Nat) (hfuel : m ≤ fuel)
+    (sleep : Num) (eom : Bool) (hnn : 0 ≤ sleep.n) (s : St) (fuel : Nat) (hfuel : m ≤ fuel)
     (hok : ∀ i, i < m → (whileOut fr inner sleep i 1 s).2 = .ok)
     (hfalse : ∀ i, i < m → stopEval cfg (whileOut fr inner sleep i 1 s).1 = .ok false) :
     whileIter cfg fr inner (some m) sleep eom fuel 1 s =
@@ -199,16 +220,90 @@ theorem while_ends_at_max (cfg : WhileCfg) (fr : Frame) (inner : Frame → Body)
                      "pypyr.errors.LoopMaxExhaustedError" "~while loop reached max"
        else ((whileOut fr inner sleep (m - 1) 1 s).1, .ok)) := by
   have hb : whileBounded (some m) = true := by simp [whileBounded]; omega
-  exact whileIter_exhausted cfg fr inner (some m) sleep eom hb (m - 1) 1 s fuel (by omega)
+  exact whileIter_exhausted cfg fr inner (some m) sleep eom hb hnn (m - 1) 1 s fuel (by omega)
     (by simp; omega) (fun i hi => hok i (by omega)) (fun i hi => hfalse i (by omega))
 
-/-- **The count, in closed form** (`max = m ≥ 1`, iterations completing normally, `stop`
-    evaluating): the loop performs `j+1` iterations where `j+1` is the number of the first
-    iteration with a true post-execution `stop`, or `m` if there is none; it raises the
-    loop-exhausted error exactly when `errorOnMax` is set and `stop` never became true, and
-    completes normally otherwise. -/
+/-- **The count, in closed form, from hypotheses about the EXECUTED iterations only**
+    (`max = m ≥ 1`): assume that every iteration the loop actually reaches (`WhileReaches … i 1 s`:
+    all earlier ones completed normally with a false post-execution `stop`) completes normally and
+    that its `stop` then evaluates — nothing is assumed about iterations after the one at which the
+    loop stops, which never happen. Then the loop performs `j+1` iterations where `j+1` is the
+    number of the first iteration with a true post-execution `stop`, or `m` if there is none; it
+    raises the loop-exhausted error exactly when `errorOnMax` is set and `stop` never became true,
+    and completes normally otherwise. -/
+theorem while_count' (cfg : WhileCfg) (fr : Frame) (inner : Frame → Body) (m : Nat) (hm : 1 ≤ m)
+    (sleep : Num) (eom : Bool) (hnn : 0 ≤ sleep.n) (s : St) (fuel : Nat) (hfuel : m ≤ fuel)
+    (hok : ∀ i, i < m → WhileReaches cfg fr inner sleep i 1 s → (whileOut fr inner sleep i 1 s).2 = .ok)
+    (hst : ∀ i, i < m → WhileReaches cfg fr inner sleep i 1 s → (whileOut fr inner sleep i 1 s).2 = .ok →
+      ∃ b, stopEval cfg (whileOut fr inner sleep i 1 s).1 = .ok b) :
+    (∃ j, j < m ∧ WhileReaches cfg fr inner sleep j 1 s ∧ (whileOut fr inner sleep j 1 s).2 = .ok ∧
+        stopEval cfg (whileOut fr inner sleep j 1 s).1 = .ok true ∧
+        whileIter cfg fr inner (some m) sleep eom fuel 1 s = ((whileOut fr inner sleep j 1 s).1, .ok)) ∨
+    (WhileReaches cfg fr inner sleep m 1 s ∧
+        whileIter cfg fr inner (some m) sleep eom fuel 1 s =
+          (if eom then raiseNew (whileOut fr inner sleep (m - 1) 1 s).1
+                         "pypyr.errors.LoopMaxExhaustedError" "~while loop reached max"
+           else ((whileOut fr inner sleep (m - 1) 1 s).1, .ok))) := by
+  have hb : whileBounded (some m) = true := by simp [whileBounded]; omega
+  rcases whileIter_bounded_outcome' cfg fr inner (some m) sleep eom hb hnn (m - 1) 1 s fuel (by omega)
+      (by simp; omega) (fun i hi hr => hok i (by omega) hr)
+      (fun i hi hr => hst i (by omega) hr (hok i (by omega) hr)) with
+    ⟨j, hj, h0, h1, h2, h3⟩ | ⟨h1, h2⟩
+  · exact .inl ⟨j, by omega, h0, h1, h2, h3⟩
+  · have e : m - 1 + 1 = m := by omega
+    rw [e] at h1
+    exact .inr ⟨h1, h2⟩
+
+/-- The same with the number of executed iterations given: if iterations `1 .. j+1` (`j < m`)
+    complete normally and `stop` is false after each of the first `j` — nothing at all is assumed
+    about later iterations — then: `stop` true after iteration `j+1` ⇒ the loop ends there,
+    normally; `j+1 = m` and `stop` false ⇒ the loop ends there, with the loop-exhausted error iff
+    `errorOnMax`; iteration `j+1` not completing normally ⇒ the loop ends with its outcome; `stop`
+    failing to evaluate ⇒ the loop ends with that error. -/
+theorem while_runs_exactly (cfg : WhileCfg) (fr : Frame) (inner : Frame → Body) (m : Nat) (hm : 1 ≤ m)
+    (sleep : Num) (eom : Bool) (hnn : 0 ≤ sleep.n) (s : St) (fuel : Nat) (hfuel : m ≤ fuel)
+    (j : Nat) (hj : j < m) (hr : WhileReaches cfg fr inner sleep j 1 s) :
+    ((whileOut fr inner sleep j 1 s).2 = .ok → stopEval cfg (whileOut fr inner sleep j 1 s).1 = .ok true →
+      whileIter cfg fr inner (some m) sleep eom fuel 1 s = ((whileOut fr inner sleep j 1 s).1, .ok)) ∧
+    ((whileOut fr inner sleep j 1 s).2 = .ok → stopEval cfg (whileOut fr inner sleep j 1 s).1 = .ok false →
+      j = m - 1 →
+      whileIter cfg fr inner (some m) sleep eom fuel 1 s =
+        (if eom then raiseNew (whileOut fr inner sleep j 1 s).1
+                       "pypyr.errors.LoopMaxExhaustedError" "~while loop reached max"
+         else ((whileOut fr inner sleep j 1 s).1, .ok))) ∧
+    ((whileOut fr inner sleep j 1 s).2 ≠ .ok →
+      whileIter cfg fr inner (some m) sleep eom fuel 1 s = whileOut fr inner sleep j 1 s) ∧
+    (∀ x, (whileOut fr inner sleep j 1 s).2 = .ok → stopEval cfg (whileOut fr inner sleep j 1 s).1 = .error x →
+      whileIter cfg fr inner (some m) sleep eom fuel 1 s = raiseExc (whileOut fr inner sleep j 1 s).1 x) := by
+  have hb : whileBounded (some m) = true := by simp [whileBounded]; omega
+  have hbound : whileBounded (some m) = true → 1 + j ≤ (some m).getD 0 := fun _ => by simp; omega
+  refine ⟨fun hok htrue => ?_, fun hok hfalse hjm => ?_, fun hbad => ?_, fun x hok hx => ?_⟩
+  · exact whileIter_first_stop cfg fr inner (some m) sleep eom hnn j 1 s fuel (by omega)
+      (fun i hi => by
+        by_cases hlt : i < j
+        · exact (hr i hlt).1
+        · have : i = j := by omega
+          subst this; exact hok)
+      (fun i hi => (hr i hi).2) htrue hbound
+  · exact whileIter_exhausted cfg fr inner (some m) sleep eom hb hnn j 1 s fuel (by omega)
+      (by simp; omega)
+      (fun i hi => by
+        by_cases hlt : i < j
+        · exact (hr i hlt).1
+        · have : i = j := by omega
+          subst this; exact hok)
+      (fun i hi => by
+        by_cases hlt : i < j
+        · exact (hr i hlt).2
+        · have : i = j := by omega
+          subst this; exact hfalse)
+  · exact whileIter_first_nonok cfg fr inner (some m) sleep eom hnn j 1 s fuel (by omega) hr hbad hbound
+  · exact whileIter_stop_error cfg fr inner (some m) sleep eom hnn j 1 s fuel (by omega) hr hok x hx hbound
+
+/-- the former statement (hypotheses for all `i < m`, also for iterations that are never
+    executed): a corollary of `while_count'`. -/
 theorem while_count (cfg : WhileCfg) (fr : Frame) (inner : Frame → Body) (m : Nat) (hm : 1 ≤ m)
-    (sleep : Num) (eom : Bool) (s : St) (fuel : Nat) (hfuel : m ≤ fuel)
+    (sleep : Num) (eom : Bool) (hnn : 0 ≤ sleep.n) (s : St) (fuel : Nat) (hfuel : m ≤ fuel)
     (hok : ∀ i, i < m → (whileOut fr inner sleep i 1 s).2 = .ok)
     (hst : ∀ i, i < m → ∃ b, stopEval cfg (whileOut fr inner sleep i 1 s).1 = .ok b) :
     (∃ j, j < m ∧ (∀ i, i < j → stopEval cfg (whileOut fr inner sleep i 1 s).1 = .ok false) ∧
@@ -219,26 +314,27 @@ theorem while_count (cfg : WhileCfg) (fr : Frame) (inner : Frame → Body) (m : 
           (if eom then raiseNew (whileOut fr inner sleep (m - 1) 1 s).1
                          "pypyr.errors.LoopMaxExhaustedError" "~while loop reached max"
            else ((whileOut fr inner sleep (m - 1) 1 s).1, .ok))) := by
-  have hb : whileBounded (some m) = true := by simp [whileBounded]; omega
-  rcases whileIter_bounded_outcome cfg fr inner (some m) sleep eom hb (m - 1) 1 s fuel (by omega)
-      (by simp; omega) (fun i hi => hok i (by omega)) (fun i hi => hst i (by omega)) with
-    ⟨j, hj, h1, h2, h3⟩ | ⟨h1, h2⟩
-  · exact .inl ⟨j, by omega, h1, h2, h3⟩
-  · exact .inr ⟨fun i hi => h1 i (by omega), h2⟩
+  rcases while_count' cfg fr inner m hm sleep eom hnn s fuel hfuel (fun i hi _ => hok i hi)
+      (fun i hi _ _ => hst i hi) with ⟨j, hj, h0, _, h2, h3⟩ | ⟨h1, h2⟩
+  · exact .inl ⟨j, hj, fun i hi => (h0 i hi).2, h2, h3⟩
+  · exact .inr ⟨fun i hi => (h1 i hi).2, h2⟩
 
 /-- **Loop-exhausted error iff `errorOnMax` ∧ `stop` never true within `max`** — and normal
-    completion in every other case (same hypotheses as `while_count`). -/
-theorem while_exhausted_iff (cfg : WhileCfg) (fr : Frame) (inner : Frame → Body) (m : Nat) (hm : 1 ≤ m)
-    (sleep : Num) (eom : Bool) (s : St) (fuel : Nat) (hfuel : m ≤ fuel)
-    (hok : ∀ i, i < m → (whileOut fr inner sleep i 1 s).2 = .ok)
-    (hst : ∀ i, i < m → ∃ b, stopEval cfg (whileOut fr inner sleep i 1 s).1 = .ok b) :
+    completion in every other case; hypotheses about the executed iterations only, as in
+    `while_count'`. ("`stop` false after each of the iterations `1 .. m`" on the right entails that
+    all `m` of them were executed.) -/
+theorem while_exhausted_iff' (cfg : WhileCfg) (fr : Frame) (inner : Frame → Body) (m : Nat) (hm : 1 ≤ m)
+    (sleep : Num) (eom : Bool) (hnn : 0 ≤ sleep.n) (s : St) (fuel : Nat) (hfuel : m ≤ fuel)
+    (hok : ∀ i, i < m → WhileReaches cfg fr inner sleep i 1 s → (whileOut fr inner sleep i 1 s).2 = .ok)
+    (hst : ∀ i, i < m → WhileReaches cfg fr inner sleep i 1 s → (whileOut fr inner sleep i 1 s).2 = .ok →
+      ∃ b, stopEval cfg (whileOut fr inner sleep i 1 s).1 = .ok b) :
     ((whileIter cfg fr inner (some m) sleep eom fuel 1 s).2 =
         .err ⟨(whileOut fr inner sleep (m - 1) 1 s).1.nextExc, "pypyr.errors.LoopMaxExhaustedError",
               "~while loop reached max"⟩ false ↔
       (eom = true ∧ ∀ i, i < m → stopEval cfg (whileOut fr inner sleep i 1 s).1 = .ok false)) ∧
     (¬ (eom = true ∧ ∀ i, i < m → stopEval cfg (whileOut fr inner sleep i 1 s).1 = .ok false) →
       (whileIter cfg fr inner (some m) sleep eom fuel 1 s).2 = .ok) := by
-  rcases while_count cfg fr inner m hm sleep eom s fuel hfuel hok hst with ⟨j, hj, _, h2, h3⟩ | ⟨h1, h2⟩
+  rcases while_count' cfg fr inner m hm sleep eom hnn s fuel hfuel hok hst with ⟨j, hj, _, _, h2, h3⟩ | ⟨h1, h2⟩
   · have hnot : ¬ (eom = true ∧ ∀ i, i < m → stopEval cfg (whileOut fr inner sleep i 1 s).1 = .ok false) := by
       intro ⟨_, hall⟩
       have := hall j hj
@@ -246,10 +342,77 @@ theorem while_exhausted_iff (cfg : WhileCfg) (fr : Frame) (inner : Frame → Bod
       cases this
     rw [h3]
     exact ⟨⟨fun h => (by cases h), fun h => absurd h hnot⟩, fun _ => rfl⟩
-  · rw [h2]
+  · have h1' : ∀ i, i < m → stopEval cfg (whileOut fr inner sleep i 1 s).1 = .ok false := fun i hi => (h1 i hi).2
+    rw [h2]
     cases eom with
-    | true => exact ⟨⟨fun _ => ⟨rfl, h1⟩, fun _ => rfl⟩, fun h => absurd ⟨rfl, h1⟩ h⟩
+    | true => exact ⟨⟨fun _ => ⟨rfl, h1'⟩, fun _ => rfl⟩, fun h => absurd ⟨rfl, h1'⟩ h⟩
     | false => exact ⟨⟨fun h => (by cases h), fun h => (by cases h.1)⟩, fun _ => rfl⟩
+
+/-- the former statement (hypotheses for all `i < m`): a corollary of `while_exhausted_iff'`. -/
+theorem while_exhausted_iff (cfg : WhileCfg) (fr : Frame) (inner : Frame → Body) (m : Nat) (hm : 1 ≤ m)
+    (sleep : Num) (eom : Bool) (hnn : 0 ≤ sleep.n) (s : St) (fuel : Nat) (hfuel : m ≤ fuel)
+    (hok : ∀ i, i < m → (whileOut fr inner sleep i 1 s).2 = .ok)
+    (hst : ∀ i, i < m → ∃ b, stopEval cfg (whileOut fr inner sleep i 1 s).1 = .ok b) :
+    ((whileIter cfg fr inner (some m) sleep eom fuel 1 s).2 =
+        .err ⟨(whileOut fr inner sleep (m - 1) 1 s).1.nextExc, "pypyr.errors.LoopMaxExhaustedError",
+              "~while loop reached max"⟩ false ↔
+      (eom = true ∧ ∀ i, i < m → stopEval cfg (whileOut fr inner sleep i 1 s).1 = .ok false)) ∧
+    (¬ (eom = true ∧ ∀ i, i < m → stopEval cfg (whileOut fr inner sleep i 1 s).1 = .ok false) →
+      (whileIter cfg fr inner (some m) sleep eom fuel 1 s).2 = .ok) :=
+  while_exhausted_iff' cfg fr inner m hm sleep eom hnn s fuel hfuel (fun i hi _ => hok i hi)
+    (fun i hi _ _ => hst i hi)
+
+/-- a body that fails in while-iteration 3 and logs its counter in every other one. -/
+def failAt3 : Frame → Body := fun fr s =>
+  if fr.whileC = some 3 then raiseNew s "ValueError" "boom"
+  else ({ s with trace := s.trace ++ [itemEvent (Ctx.get? s.ctx "whileCounter") none] }, .ok)
+
+/-- `while: {max: 5, stop: !py whileCounter == 2}` -/
+def stopAt2 : WhileCfg :=
+  { max := some (.int 5), stop := some (.py (.binop .eq (.name "whileCounter") (.const (.int 2)))) }
+
+/-- The hypotheses of `while_count'` / `while_exhausted_iff'` hold for a loop whose body would fail
+    in iteration 3 but whose `stop` becomes true after iteration 2 — while the all-`i` hypothesis of
+    the former `while_count` is false for it (iteration 3, were it to happen, does not complete).
+    The loop performs iterations 1 and 2 and completes normally, `errorOnMax` notwithstanding. -/
+example :
+    (∀ i, i < 5 → WhileReaches stopAt2 {} failAt3 ⟨0, 0, true⟩ i 1 {} →
+      (whileOut {} failAt3 ⟨0, 0, true⟩ i 1 {}).2 = .ok) ∧
+    (∀ i, i < 5 → WhileReaches stopAt2 {} failAt3 ⟨0, 0, true⟩ i 1 {} →
+      (whileOut {} failAt3 ⟨0, 0, true⟩ i 1 {}).2 = .ok →
+      ∃ b, stopEval stopAt2 (whileOut {} failAt3 ⟨0, 0, true⟩ i 1 {}).1 = .ok b) ∧
+    ¬ (∀ i, i < 5 → (whileOut {} failAt3 ⟨0, 0, true⟩ i 1 {}).2 = .ok) ∧
+    whileIter stopAt2 {} failAt3 (some 5) ⟨0, 0, true⟩ true 5 1 {} =
+      ((whileOut {} failAt3 ⟨0, 0, true⟩ 1 1 {}).1, .ok) ∧
+    (whileOut {} failAt3 ⟨0, 0, true⟩ 1 1 {}).1.trace.map (·.i) = [some (.int 1), some (.int 2)] := by
+  have ok0 : (whileOut {} failAt3 ⟨0, 0, true⟩ 0 1 {}).2 = .ok := by decide +kernel
+  have ok1 : (whileOut {} failAt3 ⟨0, 0, true⟩ 1 1 {}).2 = .ok := by decide +kernel
+  have st0 : stopEval stopAt2 (whileOut {} failAt3 ⟨0, 0, true⟩ 0 1 {}).1 = .ok false := by decide +kernel
+  have st1 : stopEval stopAt2 (whileOut {} failAt3 ⟨0, 0, true⟩ 1 1 {}).1 = .ok true := by decide +kernel
+  have bad2 : (whileOut {} failAt3 ⟨0, 0, true⟩ 2 1 {}).2 ≠ .ok := by decide +kernel
+  -- iterations 3, 4, 5 are not reached: `stop` was true after iteration 2
+  have unreached : ∀ i, 2 ≤ i → ¬ WhileReaches stopAt2 {} failAt3 ⟨0, 0, true⟩ i 1 {} := by
+    intro i hi hr
+    have := (hr 1 (by omega)).2
+    rw [st1] at this
+    cases this
+  have hr1 : WhileReaches stopAt2 {} failAt3 ⟨0, 0, true⟩ 1 1 {} := by
+    intro i hi
+    have : i = 0 := by omega
+    subst this; exact ⟨ok0, st0⟩
+  refine ⟨?_, ?_, fun h => bad2 (h 2 (by omega)), ?_, by decide +kernel⟩
+  · intro i _ hr
+    match i, hr with
+    | 0, _ => exact ok0
+    | 1, _ => exact ok1
+    | i + 2, hr => exact absurd hr (unreached _ (by omega))
+  · intro i _ hr _
+    match i, hr with
+    | 0, _ => exact ⟨_, st0⟩
+    | 1, _ => exact ⟨_, st1⟩
+    | i + 2, hr => exact absurd hr (unreached _ (by omega))
+  · exact (while_runs_exactly stopAt2 {} failAt3 5 (by omega) ⟨0, 0, true⟩ true (by decide) {} 5 (by omega)
+      1 (by omega) hr1).1 ok1 st1
 
 /-- **Sleeps only between iterations**: for a body that does not itself sleep, after `i+1`
     iterations exactly `i` sleeps were recorded, all equal to the once-evaluated `sleep` — so a
@@ -364,6 +527,107 @@ theorem while_iteration_runs_complete_foreach (cfg : WhileCfg) (fr : Frame) (con
     rw [foreach_iterable_evaluated_once raw _ cond _ v items hf hi]
     exact foreachItems_allOk _ cond items _ hall
   rw [whileIter_succ_of_ok _ _ _ _ _ _ _ _ _ (by rw [h1]), h1]
+
+/-- **The nested trace, in closed form** (`while > foreach > logging body`). The body `logIW tag g`
+    logs `(tag, context['i'], context['whileCounter'])` and then transforms the context by an
+    arbitrary `g` that does not write `whileCounter` (it may overwrite or delete `i` and anything
+    else). With `max = m ≥ 1`, no `stop`, a non-negative `sleep` and the (evaluated) items `xs`, the
+    loop appends to the trace exactly
+
+        [ (x, w) | w ← 1..m, x ← xs ]        (`w` outer, `x` inner, in this order)
+
+    i.e. the concatenation over `w = 1, …, m` of `xs.map (event · w)`; it sleeps exactly `m − 1`
+    times, each time the once-evaluated `sleep`; and it ends with the loop-exhausted error iff
+    `errorOnMax`, normally otherwise. Any `m`, any list (including `[]`), any frame, state and fuel
+    `≥ m` (induction on `m` and on `xs`). -/
+theorem while_foreach_trace (tag : String) (g : Ctx → Ctx) (hg : KeepsCounter g) (cfg : WhileCfg)
+    (hstop : cfg.stop = none) (fr : Frame) (xs : List Val) (m : Nat) (hm : 1 ≤ m) (sleep : Num)
+    (hnn : 0 ≤ sleep.n) (eom : Bool) (fuel : Nat) (hfuel : m ≤ fuel) (s : St) :
+    (whileIter cfg fr (fun fr' => foreachItems fr' (logIW tag g) xs) (some m) sleep eom fuel 1 s).1.trace =
+      s.trace ++ (List.range m).flatMap
+        (fun j => xs.map fun x => iwEvent tag (some x) (some (.int ((j + 1 : Nat) : Int)))) ∧
+    (whileIter cfg fr (fun fr' => foreachItems fr' (logIW tag g) xs) (some m) sleep eom fuel 1 s).1.sleeps =
+      s.sleeps ++ List.replicate (m - 1) (numToVal sleep) ∧
+    (whileIter cfg fr (fun fr' => foreachItems fr' (logIW tag g) xs) (some m) sleep eom fuel 1 s).2 =
+      (if eom then .err ⟨s.nextExc, "pypyr.errors.LoopMaxExhaustedError", "~while loop reached max"⟩ false
+       else .ok) := by
+  have hnest := whileOut_nested tag g hg fr xs sleep
+  have hst : ∀ s', stopEval cfg s' = .ok false := by intro s'; unfold stopEval; rw [hstop]
+  rw [while_ends_at_max cfg fr _ m hm sleep eom hnn s fuel hfuel (fun i _ => (hnest i 1 s).1)
+    (fun i _ => hst _)]
+  obtain ⟨_, e2, e3, e4⟩ := hnest (m - 1) 1 s
+  have em : m - 1 + 1 = m := by omega
+  rw [em] at e2
+  have esw : sweeps tag xs 1 m = (List.range m).flatMap
+      (fun j => xs.map fun x => iwEvent tag (some x) (some (.int ((j + 1 : Nat) : Int)))) := by
+    unfold sweeps sweep
+    have : (fun j => xs.map fun x => iwEvent tag (some x) (some (.int ((1 + j : Nat) : Int)))) =
+        (fun j => xs.map fun x => iwEvent tag (some x) (some (.int ((j + 1 : Nat) : Int)))) := by
+      funext j; rw [Nat.add_comm]
+    rw [this]
+  rw [esw] at e2
+  cases eom with
+  | false => exact ⟨e2, e3, rfl⟩
+  | true =>
+    simp only [if_true, raiseNew]
+    exact ⟨e2, e3, by rw [e4]⟩
+
+/-- the same with the `foreach` given raw (`foreachLoop`): the iterable is evaluated once per entry
+    into the foreach loop, i.e. once per while iteration, on the state of that moment; if it
+    evaluates to the items `xs` every time (e.g. a literal list of literals, or an expression over
+    keys the body leaves alone), the trace is the same closed form. -/
+theorem while_foreach_trace_raw (tag : String) (g : Ctx → Ctx) (hg : KeepsCounter g) (cfg : WhileCfg)
+    (hstop : cfg.stop = none) (fr : Frame) (raw v : Val) (xs : List Val)
+    (hraw : ∀ s', fmtV s' raw = .ok v) (hitems : iterItems v = .ok xs)
+    (m : Nat) (hm : 1 ≤ m) (sleep : Num)
+    (hnn : 0 ≤ sleep.n) (eom : Bool) (fuel : Nat) (hfuel : m ≤ fuel) (s : St) :
+    (whileIter cfg fr (fun fr' => foreachLoop raw fr' (logIW tag g)) (some m) sleep eom fuel 1 s).1.trace =
+      s.trace ++ (List.range m).flatMap
+        (fun j => xs.map fun x => iwEvent tag (some x) (some (.int ((j + 1 : Nat) : Int)))) ∧
+    (whileIter cfg fr (fun fr' => foreachLoop raw fr' (logIW tag g)) (some m) sleep eom fuel 1 s).1.sleeps =
+      s.sleeps ++ List.replicate (m - 1) (numToVal sleep) ∧
+    (whileIter cfg fr (fun fr' => foreachLoop raw fr' (logIW tag g)) (some m) sleep eom fuel 1 s).2 =
+      (if eom then .err ⟨s.nextExc, "pypyr.errors.LoopMaxExhaustedError", "~while loop reached max"⟩ false
+       else .ok) := by
+  have e : (fun fr' => foreachLoop raw fr' (logIW tag g)) = (fun fr' => foreachItems fr' (logIW tag g) xs) := by
+    funext fr' s'
+    exact foreach_iterable_evaluated_once raw fr' _ s' v xs (hraw s') hitems
+  rw [e]
+  exact while_foreach_trace tag g hg cfg hstop fr xs m hm sleep hnn eom fuel hfuel s
+
+/-- a context transformation that deletes `i` and counts in `n` — it keeps `whileCounter`. -/
+def dropI : Ctx → Ctx := fun c => Ctx.set (Ctx.erase c "i") "n" (.int 7)
+
+theorem dropI_keepsCounter : KeepsCounter dropI := by
+  intro c
+  unfold dropI
+  rw [ctx_get_set_ne _ _ _ _ (by decide), ctx_get_erase_ne _ _ _ (by decide)]
+
+/-- the hypotheses of `while_foreach_trace(_raw)` hold on a concrete loop (3 while iterations over
+    2 items, a body that deletes `i`, sleep 2.0, `errorOnMax`), and the closed form computes to the
+    six events `(x,1) (y,1) (x,2) (y,2) (x,3) (y,3)` and two sleeps. -/
+example :
+    let r := whileIter { max := some (.int 3) } {} (fun fr' => foreachLoop (.list [.str "x", .str "y"]) fr' (logIW "t" dropI))
+      (some 3) ⟨2, 0, true⟩ true 3 1 {}
+    r.1.trace.map (fun ev => (ev.i, ev.w)) =
+      [(some (.str "x"), some (.int 1)), (some (.str "y"), some (.int 1)),
+       (some (.str "x"), some (.int 2)), (some (.str "y"), some (.int 2)),
+       (some (.str "x"), some (.int 3)), (some (.str "y"), some (.int 3))] ∧
+    r.1.sleeps = [.flt 2 0, .flt 2 0] ∧
+    r.2 = .err ⟨0, "pypyr.errors.LoopMaxExhaustedError", "~while loop reached max"⟩ false := by
+  have hraw : ∀ s' : St, fmtV s' (.list [.str "x", .str "y"]) = .ok (.list [.str "x", .str "y"]) := by
+    intro s'
+    have hp1 : parsePieces "x" = .ok [.lit "x"] := by decide +kernel
+    have hp2 : parsePieces "y" = .ok [.lit "y"] := by decide +kernel
+    simp only [fmtV, fmtVal, FMT_FUEL, fmtIter, fmtKeepType, mapE, hp1, hp2]
+    rfl
+  obtain ⟨h1, h2, h3⟩ := while_foreach_trace_raw "t" dropI dropI_keepsCounter { max := some (.int 3) } rfl {}
+    (.list [.str "x", .str "y"]) (.list [.str "x", .str "y"]) [.str "x", .str "y"] hraw rfl
+    3 (by omega) ⟨2, 0, true⟩ (by decide) true 3 (by omega) {}
+  refine ⟨?_, ?_, ?_⟩
+  · rw [h1]; decide +kernel
+  · rw [h2]; decide +kernel
+  · rw [h3]; rfl
 
 /-- **An error that is not swallowed ends all enclosing loops of the step.** Layer by layer: an
     `.err` coming out of the conditional layer for item `x` ends the foreach at once; an `.err`
